@@ -13,6 +13,7 @@ import (
 	"strconv"
 	"strings"
 	"sync"
+	"sync/atomic"
 	"syscall"
 	"time"
 )
@@ -47,6 +48,31 @@ type Prop struct {
 	OutputIsViolation bool
 	// Timeout per tier for the whole run (generous wall-clock watchdog).
 	Timeout func(tier string) time.Duration
+	// CaseBudget is the generous wall-clock budget of a single case (default
+	// 120 s quick / 600 s thorough; normal cases take milliseconds). A child
+	// whose current case exceeds it stops itself; the hang counts as a
+	// violation only if the same case, replayed alone with twice the budget,
+	// stops making progress again.
+	CaseBudget func(tier string) time.Duration
+}
+
+// HangExit is the exit status of a child that stopped itself because one
+// case exceeded its budget.
+const HangExit = 97
+
+func (p *Prop) caseBudget(tier string) time.Duration {
+	if b := os.Getenv("VERIF_CASE_BUDGET_S"); b != "" {
+		if v, err := strconv.Atoi(b); err == nil && v > 0 {
+			return time.Duration(v) * time.Second
+		}
+	}
+	if p.CaseBudget != nil {
+		return p.CaseBudget(tier)
+	}
+	if tier == "thorough" {
+		return 600 * time.Second
+	}
+	return 120 * time.Second
 }
 
 // RunInfo is what Post sees.
@@ -115,8 +141,20 @@ func envSeed() uint64 {
 }
 
 // ChildMain runs cases k, k+w, k+2w, ... < n and writes its result file.
-func ChildMain(p *Prop, tier string, seed uint64, k, w, n int, dir string, only int, verbose string) {
+func ChildMain(p *Prop, tier string, seed uint64, k, w, n int, dir string, only int, verbose string, budget time.Duration) {
 	st := NewStats()
+	var caseStart atomic.Int64
+	if budget > 0 {
+		go func() {
+			for {
+				time.Sleep(200 * time.Millisecond)
+				if t := caseStart.Load(); t != 0 && time.Since(time.Unix(0, t)) > budget {
+					os.WriteFile(filepath.Join(dir, fmt.Sprintf("hang_%d", k)), []byte("case exceeded its wall-clock budget\n"), 0o644)
+					os.Exit(HangExit)
+				}
+			}
+		}()
+	}
 	res := &childResult{K: k, Calls: map[string]int64{}}
 	sigSeen := map[string]*Violation{}
 	progress, _ := os.OpenFile(filepath.Join(dir, fmt.Sprintf("progress_%d", k)), os.O_CREATE|os.O_WRONLY|os.O_TRUNC, 0o644)
@@ -132,7 +170,9 @@ func ChildMain(p *Prop, tier string, seed uint64, k, w, n int, dir string, only 
 		if vw != nil {
 			c.Verbose = vw
 		}
+		caseStart.Store(time.Now().UnixNano())
 		c.RunCase(p.Run)
+		caseStart.Store(0)
 		st.Cases++
 		if c.nontriv {
 			st.CaseHash[c.caseHash] = struct{}{}
@@ -239,6 +279,7 @@ func ParentMain(p *Prop, tier, verifDir, outDir string) int {
 	if p.Timeout != nil {
 		timeout = p.Timeout(tier)
 	}
+	budget := p.caseBudget(tier)
 	env := append(os.Environ(), "GOCOVERDIR="+filepath.Join(work, "cov"))
 	if p.ChildEnv != nil {
 		env = append(env, p.ChildEnv(work)...)
@@ -253,7 +294,7 @@ func ParentMain(p *Prop, tier, verifDir, outDir string) int {
 	for k := 0; k < w; k++ {
 		cs := &childState{}
 		children[k] = cs
-		cs.cmd = childCmd(exe, p.ID, tier, seed, k, w, n, work, -1, "", env)
+		cs.cmd = childCmd(exe, p.ID, tier, seed, k, w, n, work, -1, "", env, budget)
 		if err := cs.cmd.Start(); err != nil {
 			cs.err = err
 			continue
@@ -340,7 +381,7 @@ func ParentMain(p *Prop, tier, verifDir, outDir string) int {
 		// progress file and a verbose single-case replay.
 		idx := readProgress(filepath.Join(work, fmt.Sprintf("progress_%d", k)))
 		kind := "fatal"
-		if cs.timedOut {
+		if cs.timedOut || exitCode(cs.err) == HangExit {
 			kind = "watchdog"
 		}
 		if idx < 0 {
@@ -348,8 +389,8 @@ func ParentMain(p *Prop, tier, verifDir, outDir string) int {
 			continue
 		}
 		vlog := filepath.Join(work, fmt.Sprintf("verbose_%d.log", k))
-		rc := childCmd(exe, p.ID, tier, seed, 1000+k, 1, n, work, idx, vlog, env)
-		rerr := runWithTimeout(rc, 2*timeout)
+		rc := childCmd(exe, p.ID, tier, seed, 1000+k, 1, n, work, idx, vlog, env, 2*budget)
+		rerr := runWithTimeout(rc, 2*budget+30*time.Second)
 		var rres childResult
 		rb, e2 := os.ReadFile(filepath.Join(work, fmt.Sprintf("result_%d.json", 1000+k)))
 		reproduced := !(e2 == nil && json.Unmarshal(rb, &rres) == nil && rres.Done)
@@ -481,8 +522,8 @@ func ParentMain(p *Prop, tier, verifDir, outDir string) int {
 	return 0
 }
 
-func childCmd(exe, id, tier string, seed uint64, k, w, n int, work string, only int, verbose string, env []string) *exec.Cmd {
-	args := []string{"child", "-prop", id, "-tier", tier, "-seed", strconv.FormatUint(seed, 10), "-k", strconv.Itoa(k), "-w", strconv.Itoa(w), "-n", strconv.Itoa(n), "-dir", work, "-only", strconv.Itoa(only)}
+func childCmd(exe, id, tier string, seed uint64, k, w, n int, work string, only int, verbose string, env []string, budget time.Duration) *exec.Cmd {
+	args := []string{"child", "-prop", id, "-tier", tier, "-seed", strconv.FormatUint(seed, 10), "-k", strconv.Itoa(k), "-w", strconv.Itoa(w), "-n", strconv.Itoa(n), "-dir", work, "-only", strconv.Itoa(only), "-budget", strconv.FormatInt(int64(budget/time.Millisecond), 10)}
 	if verbose != "" {
 		args = append(args, "-verbose", verbose)
 	}
@@ -510,6 +551,13 @@ func runWithTimeout(cmd *exec.Cmd, d time.Duration) error {
 		<-done
 		return fmt.Errorf("timed out after %v", d)
 	}
+}
+
+func exitCode(err error) int {
+	if ee, ok := err.(*exec.ExitError); ok {
+		return ee.ExitCode()
+	}
+	return 0
 }
 
 func fileSize(p string) int64 {
@@ -591,6 +639,8 @@ func fatalClass(stderr string) string {
 		return "out-of-memory"
 	case strings.Contains(stderr, "SIGQUIT"):
 		return "no-progress"
+	case stderr == "":
+		return "no-progress-or-silent-exit"
 	case strings.Contains(stderr, "DATA RACE"):
 		return "data-race"
 	}
@@ -639,4 +689,18 @@ func ReplayMain(path, verifDir string) int {
 	}
 	fmt.Printf("case %d of %s (%s, seed %d) ran without violation\n", v.Index, p.ID, v.Tier, v.Seed)
 	return 0
+}
+
+// RunSingleChild runs one case in a child of its own (used for liveness
+// canaries) and reports the violations it recorded, its exit status and
+// whether it completed.
+func RunSingleChild(run *RunInfo, k, only int, extraEnv []string, budget time.Duration) ([]*Violation, int, bool) {
+	exe, _ := os.Executable()
+	env := append(os.Environ(), extraEnv...)
+	cmd := childCmd(exe, run.Prop.ID, run.Tier, run.Seed, k, 1, only+1, run.WorkDir, only, "", env, budget)
+	err := runWithTimeout(cmd, budget+60*time.Second)
+	var res childResult
+	b, e2 := os.ReadFile(filepath.Join(run.WorkDir, fmt.Sprintf("result_%d.json", k)))
+	done := e2 == nil && json.Unmarshal(b, &res) == nil && res.Done
+	return res.Violations, exitCode(err), done
 }
